@@ -135,11 +135,17 @@ impl RetryPolicy {
 
                     sleep(delay).await;
 
-                    // Increase backoff
-                    backoff = Duration::from_secs_f64(
-                        (backoff.as_secs_f64() * self.multiplier)
-                            .min(self.max_backoff.as_secs_f64()),
-                    );
+                    // Increase backoff. The multiplier comes from configuration
+                    // (CASCETTE_BACKOFF_MULTIPLIER) and may be negative, NaN or huge:
+                    // never hand an out-of-range value to Duration::from_secs_f64.
+                    let next = backoff.as_secs_f64() * self.multiplier;
+                    backoff = if next.is_nan() || next >= self.max_backoff.as_secs_f64() {
+                        self.max_backoff
+                    } else if next <= 0.0 {
+                        Duration::ZERO
+                    } else {
+                        Duration::try_from_secs_f64(next).unwrap_or(self.max_backoff)
+                    };
                 }
             }
         }
